@@ -11,6 +11,14 @@ type slice struct {
 // The slices share the statement / expression constructs of the IR but use small, colliding name alphabets
 // (a, b / f) so that shadowing, capture, TDZ and redeclaration interactions occur within a few nodes.
 var slices = []slice{
+	{name: "tdz", start: "P", quickN: 4, thorN: 4, pairN: 4, text: `
+P   := @0 (prog (fdecl f PS CAP (try (block ACC (expr (call log "no throw"))) (catch e (expr (call log e))) _) DECL (return (arr (typeof x) (typeof g)))) (expr (call log (call f 7))))
+PS  := (params) | (params a) | (params a b)
+CAP := (empty) | (var g (func _ (params) (return a))) | (var g (call (arrowe (params) (typeof a)))) | (var g (arrowe (params) x)) | (expr (= a 3))
+ACC := (expr (= x 1)) | (expr (call log (= x 1))) | (expr x) | (expr (call log x)) | (expr (+= x 1)) | (expr (call log (+= x 1))) | (expr (post++ x)) | (expr (call log (++pre x)))
+     | (expr (call log (typeof x))) | (var y (= x 1)) | (expr (= (apat x) (arr 1))) | (block (expr (= x 1)))
+DECL := (let x 2) | (const x 2) | (classdecl x _) | (block (let x 2)) | (let (apat x) (arr 2))
+`},
 	{name: "scope", start: "P", quickN: 6, thorN: 8, pairN: 5, text: `
 P  := @0 (prog SL)
 SL := @0 S | @0 (@ S SL)
@@ -133,6 +141,12 @@ var corpus = []string{
 	`(prog (classdecl B _) (classdecl A B (ctor (params) (expr (call log (typeof (call (arrowe (params) this))))) (expr (super)))) (try (block (expr (new A))) (catch e (expr (call log e))) _))`,
 	`(prog (classdecl B _ (method m (params) (return 1))) (classdecl A B (ctor (params) (expr (call log (call (arrowe (params) (call (superdot m)))))) (expr (super)))) (try (block (expr (new A))) (catch e (expr (call log e))) _))`,
 	`(prog (classdecl B _ (method m (params) (return 1))) (classdecl A B (ctor (params) (var f (arrowe (params) (arr (=== this o) (call (superdot m))))) (expr (super)) (var o this) (expr (call log (call f))))) (expr (new A)))`,
+	// ---- anchors: TDZ writes / reads of stack-resident lexical locals in functions whose parameters are (not) captured ----
+	`(prog (fdecl f (params a) (var g (func _ (params) (return a))) (try (block (expr (= x 1)) (expr (call log "no throw"))) (catch e (expr (call log e))) _) (let x 2) (return (arr x (call g)))) (expr (call log (call f 7))))`,
+	`(prog (fdecl f (params a) (try (block (expr (= x 1)) (expr (call log "no throw"))) (catch e (expr (call log e))) _) (let x 2) (return (arr x a))) (expr (call log (call f 7))))`,
+	`(prog (fdecl f (params a) (var g (call (arrowe (params) a))) (try (block (expr (call log (= x 1))) (expr (call log "no throw"))) (catch e (expr (call log e))) _) (try (block (expr (+= x 1))) (catch e (expr (call log e))) _) (try (block (expr (post++ x))) (catch e (expr (call log e))) _) (try (block (expr x)) (catch e (expr (call log e))) _) (const x 2) (return (arr x g))) (expr (call log (call f 7))))`,
+	`(prog (fdecl f (params a) (var g (arrowe (params) a)) (block (try (block (expr (= x 1)) (expr (call log "no throw"))) (catch e (expr (call log e))) _) (let x 2) (expr (call log x))) (return (call g))) (expr (call log (call f 7))))`,
+	`(prog (fdecl f (params) (try (block (expr (= x 1)) (expr (call log "no throw"))) (catch e (expr (call log e))) _) (let x 2) (return x)) (expr (call log (call f))))`,
 	// ---- anchors: scopes, closures, TDZ ----
 	`(prog (const a 1) (expr (call log (call (arrowe (params) (call (arrowe (params) a)))))))`,
 	`(prog (let a 1) (var f (arrowe (params) a)) (expr (= a 2)) (expr (call log (call f))))`,
